@@ -748,7 +748,9 @@ META = {
                   'every function is integrated with its own level\'s quadrature), coo_merge_sums_duplicates (COO->CSR returns the sum of '
                   'all triplets at (i,j)), insert_block_entries, fancy_index_rows / fancy_index_columns (numpy semantics of M[idx], M[:,idx]), '
                   'sm_mul_entry and sm_transpose_entry (entry semantics of the sparse product and transpose, via axpy_spec for sorted sparse vectors), '
-                  'kron2_entry (entry (i1*nB+i2, j1*mB+j2) of the sparse Kronecker product), interlevel_in_index_box, '
+                  'kron2_entry (entry (i1*nB+i2, j1*mB+j2) of the sparse Kronecker product), multi_kron_entry (the Kronecker product of the 1-D '
+                  'prolongators has the product of the 1-D entries at the raveled multi-indices), hstack_entry, representation_associative '
+                  '(the representation coefficients can be built from the coarse or from the fine end), interlevel_in_index_box, '
                   'window_sufficient_old_refuted. PARTIAL: hassemble_entry_pattern_partial (for every REACHABLE space and every prolongator data whose '
                   'stored 1-D sparsity pattern lies inside the children pattern of C04/Children.v, every local family of level forms: the blocks equal '
                   'the form applied to the two basis functions on the finer level; P_local and the shape condition are discharged from C04 '
@@ -760,8 +762,8 @@ META = {
                   'every level pair: the blocks equal the form applied to the two basis functions on the finer level; from locality of the '
                   'level forms, P_local (children inside the parent\'s support, a hypothesis on the prolongator data), C04\'s mesh_ok and '
                   'index-box facts; the support-pattern lemma for products of Kronecker matrices is proved), '
-                  'hassemble_entry_lower_partial / hassemble_entry_upper_partial (the abstract-set versions). NOT PROVED: that the Kronecker '
-                  'product, the represent_fine loop and the chaining of the kernels through level_blocks evaluate the entry form '
+                  'hassemble_entry_lower_partial / hassemble_entry_upper_partial (the abstract-set versions). NOT PROVED: that the '
+                  'represent_fine loop and the chaining of the kernels through level_blocks evaluate the entry form '
                   '(compared exactly per history on sampled entries and with the implementation); pattern_ok for the exact Boehm matrices of C05. '
                   'Tie: per history the model is run inside Coq on the implementation\'s own level matrices/vectors/prolongators (exact '
                   'dyadic arithmetic): rows and bounding boxes passed to _assemble_level and cell_supp_indices exact; HB/THB matrices '
